@@ -11,17 +11,29 @@ re-declares those seven (now over inputs of *any* modelled type) and adds
 
 Differences to `Pull.lean`:
 
-* **`t.Current()` is state.**  `filterQuery`, `mergeQuery`, `unionQuery` and the non-sibling
-  `followingQuery`/`precedingQuery` execute `t.Current().MoveTo(node)`, and `NodeIterator.MoveNext`
-  moves `t.node` onto every reported node.  `PQ2.select` therefore takes the current node and
-  returns the new one: `select f q cur = (outcome, q', cur')`.  `contextQuery` reads it.
+* **`t.Current()` is state.**  `filterQuery`, `mergeQuery` and `unionQuery` execute
+  `t.Current().MoveTo(node)`, and `NodeIterator.MoveNext` moves `t.node` onto every reported node.
+  `PQ2.select` therefore takes the current node and returns the new one:
+  `select f q cur = (outcome, q', cur')`.  `contextQuery` reads it.
+  `filterQuery.Select` saves the context node on entry and restores it when it returns
+  (`ctx := t.Current().Copy(); defer func() { t.Current().MoveTo(ctx) }()`), `mergeQuery.Select`
+  restores it after it has collected the children of one parent, `unionQuery.Select` restores it
+  between its operands; the non-sibling `followingQuery`/`precedingQuery` do not touch it at all.
+  Consequence (`Lemmas/Pull2/Context.lean`, `select_preserves_context`): *no* `Select` of the
+  sixteen types leaves the context node moved.
 * A filter predicate is an abstract decision `dec pred node` (what `f.do(t)` answers with
-  `t.Current()` on `node`); cursor moves made *by the predicate's own evaluation* are not modelled.
+  `t.Current()` on `node`); cursor moves made *by the predicate's own evaluation* are not modelled
+  (the node-set `Select`s such an evaluation consists of leave `t.Current()` where it was, by
+  `select_preserves_context`).
 * `map[uint64]bool` is the list of its keys; `map[int]int` an association list; a `nil` map is `none`.
 * the `iterator` closures of `unionQuery`/`mergeQuery` capture `list` and `i`: modelled by the
   remaining slice `list[i:]`.
 * the closures of the non-sibling `followingQuery`/`precedingQuery` capture a `*descendantQuery`
-  over a `contextQuery`: that is a `PQ` machine of `Pull.lean`, run by `PQ.select`.
+  over a `startQuery{node}` (`Select`: `if s.done { return nil }; s.done = true; return s.node.Copy()`).
+  That is the `PQ` machine `descendant … (context c)` of `Pull.lean` run by `PQ.select` with the
+  start node `node` in the place of `t.Current()`: `PQ.context 0` is `startQuery{done: false}`, it
+  yields the node it is given once; `PQ.context (c+1)` is `done = true`.  `PQ.select` neither reads
+  nor moves the real `t.Current()`.
 
 Field names are those of the Go structs; every match arm of `PQ2.select` quotes the Go branch.
 -/
@@ -91,7 +103,9 @@ def precSibIter (d : Doc) (t : Ref → Bool) : Nat → Ref → Res Ref
     | none => .done
     | some p => if t p then .yield p else precSibIter d t f p
 
-/-- the fresh `&descendantQuery{Self: self, Input: &contextQuery{}, Predicate: f.Predicate}` -/
+/-- the fresh `&descendantQuery{Self: self, Input: &startQuery{node: node.Copy()}, Predicate: f.Predicate}`.
+The start node is not stored in the `PQ` value: the machine is run as `PQ.select d cfg node …`, its
+leaf `.context 0` playing `startQuery{node, done: false}` (see the header). -/
 def innerDesc (a : AxisInfo) (self : Bool) : PQ := .descendant a self (.context 0) none 0 0
 
 /-- `for !node.MoveToNext() { if !node.MoveToParent() { return nil } }` -/
@@ -106,22 +120,24 @@ def folClimb (d : Doc) : Nat → Ref → Res Ref
       | none => .done
 
 /-- body of the non-sibling closure of `followingQuery`:
-`for { if q == nil { …climb…; q = &descendantQuery{Self: true, …}; t.Current().MoveTo(node) };
+`for { if q == nil { …climb…; q = &descendantQuery{Self: true, Input: &startQuery{node: node.Copy()}, Predicate: f.Predicate} };
 if node := q.Select(t); node != nil { f.posit = q.posit; return node }; q = nil }`.
-Yields `(result, node, q, f.posit)`; the second component is the new `t.Current()`. -/
+Yields `(result, (node, q), f.posit)`.  `t.Current()` is neither read nor moved: `q` gets its start
+node from its `startQuery`, which holds a copy of the captured `node` (the closure moves `node` only
+while `q == nil`, so in state `(node, some q)` the start node of `q` is `node`). -/
 def folIter (d : Doc) (cfg : ECfg) (a : AxisInfo) :
-    Nat → Ref → Option PQ → Ref → Res (Ref × (Ref × Option PQ) × Nat) × Ref
-  | 0, _, _, cur => (.fuel, cur)
-  | f+1, node, none, cur =>
+    Nat → Ref → Option PQ → Res (Ref × (Ref × Option PQ) × Nat)
+  | 0, _, _ => .fuel
+  | f+1, node, none =>
     match folClimb d f node with
-    | .yield m => folIter d cfg a f m (some (innerDesc a true)) m
-    | .done => (.done, cur)
-    | .fuel => (.fuel, cur)
-  | f+1, node, some q, cur =>
-    match PQ.select d cfg cur f q with
-    | (.yield j, q') => (.yield (j, (node, some q'), q'.position), cur)
-    | (.done, _) => folIter d cfg a f node none cur
-    | (.fuel, _) => (.fuel, cur)
+    | .yield m => folIter d cfg a f m (some (innerDesc a true))
+    | .done => .done
+    | .fuel => .fuel
+  | f+1, node, some q =>
+    match PQ.select d cfg node f q with
+    | (.yield j, q') => .yield (j, (node, some q'), q'.position)
+    | (.done, _) => folIter d cfg a f node none
+    | (.fuel, _) => .fuel
 
 /-- `for !node.MoveToPrevious() { if !node.MoveToParent() { return nil }; p.posit = 0 }`;
 yields the node reached and the value of `p.posit` -/
@@ -135,55 +151,57 @@ def precClimb (d : Doc) : Nat → Ref → Nat → Res (Ref × Nat)
       | some q => precClimb d f q 0
       | none => .done
 
-/-- body of the non-sibling closure of `precedingQuery` (as `folIter`, with
+/-- body of the non-sibling closure of `precedingQuery` (as `folIter`:
+`q = &descendantQuery{Self: true, Input: &startQuery{node: node.Copy()}, Predicate: p.Predicate}`, with
 `if node := q.Select(t); node != nil { p.posit++; return node }`) -/
 def precIter (d : Doc) (cfg : ECfg) (a : AxisInfo) :
-    Nat → Ref → Option PQ → Nat → Ref → Res (Ref × (Ref × Option PQ) × Nat) × Ref
-  | 0, _, _, _, cur => (.fuel, cur)
-  | f+1, node, none, posit, cur =>
+    Nat → Ref → Option PQ → Nat → Res (Ref × (Ref × Option PQ) × Nat)
+  | 0, _, _, _ => .fuel
+  | f+1, node, none, posit =>
     match precClimb d f node posit with
-    | .yield (m, posit') => precIter d cfg a f m (some (innerDesc a true)) posit' m
-    | .done => (.done, cur)
-    | .fuel => (.fuel, cur)
-  | f+1, node, some q, posit, cur =>
-    match PQ.select d cfg cur f q with
-    | (.yield j, q') => (.yield (j, (node, some q'), posit + 1), cur)
-    | (.done, _) => precIter d cfg a f node none posit cur
-    | (.fuel, _) => (.fuel, cur)
+    | .yield (m, posit') => precIter d cfg a f m (some (innerDesc a true)) posit'
+    | .done => .done
+    | .fuel => .fuel
+  | f+1, node, some q, posit =>
+    match PQ.select d cfg node f q with
+    | (.yield j, q') => .yield (j, (node, some q'), posit + 1)
+    | (.done, _) => precIter d cfg a f node none posit
+    | (.fuel, _) => .fuel
 
 /-- the call `f.iterator()` of `followingQuery` in closure state `k = (node, q)` with `f.posit = pos`:
-yields `(result, new closure state, f.posit)` and the new `t.Current()`.
+yields `(result, new closure state, f.posit)`; neither closure touches `t.Current()`.
 The `Sibling` closure `for { if !node.MoveToNext() { return nil }; if f.Predicate(node) { f.posit++; return node } }`
 is the loop of `childIter` with `first = false`; that closure captures no `q` (`none`). -/
-def folCall (d : Doc) (cfg : ECfg) (a : AxisInfo) (sibling : Bool) (f : Nat) (k : Ref × Option PQ) (pos : Nat)
-    (cur : Ref) : Res (Ref × (Ref × Option PQ) × Nat) × Ref :=
+def folCall (d : Doc) (cfg : ECfg) (a : AxisInfo) (sibling : Bool) (f : Nat) (k : Ref × Option PQ) (pos : Nat) :
+    Res (Ref × (Ref × Option PQ) × Nat) :=
   if sibling then
     match childIter d (test d cfg a) f k.1 false with
-    | .yield j => (.yield (j, (j, none), pos + 1), cur)
-    | .done => (.done, cur)
-    | .fuel => (.fuel, cur)
-  else folIter d cfg a f k.1 k.2 cur
+    | .yield j => .yield (j, (j, none), pos + 1)
+    | .done => .done
+    | .fuel => .fuel
+  else folIter d cfg a f k.1 k.2
 
 /-- the call `p.iterator()` of `precedingQuery` -/
-def precCall (d : Doc) (cfg : ECfg) (a : AxisInfo) (sibling : Bool) (f : Nat) (k : Ref × Option PQ) (pos : Nat)
-    (cur : Ref) : Res (Ref × (Ref × Option PQ) × Nat) × Ref :=
+def precCall (d : Doc) (cfg : ECfg) (a : AxisInfo) (sibling : Bool) (f : Nat) (k : Ref × Option PQ) (pos : Nat) :
+    Res (Ref × (Ref × Option PQ) × Nat) :=
   if sibling then
     match precSibIter d (test d cfg a) f k.1 with
-    | .yield j => (.yield (j, (j, none), pos + 1), cur)
-    | .done => (.done, cur)
-    | .fuel => (.fuel, cur)
-  else precIter d cfg a f k.1 k.2 pos cur
+    | .yield j => .yield (j, (j, none), pos + 1)
+    | .done => .done
+    | .fuel => .fuel
+  else precIter d cfg a f k.1 k.2 pos
 
-/-- what `followingQuery.Select` does with a new input node: the captured `(node, q)` and the
-new `t.Current()`.  `Sibling`: the closure captures `node` only.  Otherwise
-`if node.NodeType() == AttributeNode && node.MoveToParent() { q = &descendantQuery{…}; t.Current().MoveTo(node) }` -/
-def folStart (d : Doc) (a : AxisInfo) (sibling : Bool) (n cur : Ref) : (Ref × Option PQ) × Ref :=
-  if sibling then ((n, none), cur)
+/-- what `followingQuery.Select` does with a new input node: the captured `(node, q)`.
+`Sibling`: the closure captures `node` only.  Otherwise `var q *descendantQuery;
+if node.NodeType() == AttributeNode && node.MoveToParent() { q = &descendantQuery{Input: &startQuery{node: node.Copy()}, Predicate: f.Predicate} }`
+(the descendants of the owner element follow its attributes in document order). -/
+def folStart (d : Doc) (a : AxisInfo) (sibling : Bool) (n : Ref) : Ref × Option PQ :=
+  if sibling then (n, none)
   else if n.isAttr then
     match Nav.moveParent d n with
-    | some p => ((p, some (innerDesc a false)), p)
-    | none => ((n, none), cur)
-  else ((n, none), cur)
+    | some p => (p, some (innerDesc a false))
+    | none => (n, none)
+  else (n, none)
 
 /-- `f.positmap[level]++` on the association-list model of the map -/
 def bumpMap (m : List (Nat × Nat)) (level : Nat) : List (Nat × Nat) :=
@@ -430,45 +448,55 @@ def PQ2.select (d : Doc) (cfg : ECfg) (dec : Plan → Ref → Bool) : Nat → PQ
     | .yield (j, tb') => (.yield j, .ancestor a s inp (some (j, false)) (some tb'), cur)
     | .done => PQ2.select d cfg dec f (.ancestor a s inp none (some (tb.getD []))) cur
     | .fuel => (.fuel, .ancestor a s inp (some (n, first)) tb, cur)
-  -- followingQuery, `f.iterator == nil`: `f.posit = 0; node := f.Input.Select(t); …; node = node.Copy(); if f.Sibling {…} else {…}`
+  -- followingQuery, `f.iterator == nil`: `f.posit = 0; node := f.Input.Select(t); if node == nil { return nil };
+  -- node = node.Copy(); if f.Sibling { f.iterator = … } else { var q *descendantQuery; if node.NodeType() == AttributeNode && … }`
+  -- (`folStart`; `t.Current()` stays where `f.Input.Select(t)` left it)
   | f+1, .following a sib inp none _, cur =>
     match PQ2.select d cfg dec f inp cur with
-    | (.yield n, inp', cur') =>
-      PQ2.select d cfg dec f (.following a sib inp' (some (folStart d a sib n cur').1) 0) (folStart d a sib n cur').2
+    | (.yield n, inp', cur') => PQ2.select d cfg dec f (.following a sib inp' (some (folStart d a sib n)) 0) cur'
     | (.done, inp', cur') => (.done, .following a sib inp' none 0, cur')
     | (.fuel, inp', cur') => (.fuel, .following a sib inp' none 0, cur')
   -- followingQuery, iterator present: `if node := f.iterator(); node != nil { return node }; f.iterator = nil`
+  -- (the closure does not touch `t.Current()`)
   | f+1, .following a sib inp (some (node, q)) pos, cur =>
-    match folCall d cfg a sib f (node, q) pos cur with
-    | (.yield (j, k', pos'), cur') => (.yield j, .following a sib inp (some k') pos', cur')
-    | (.done, cur') => PQ2.select d cfg dec f (.following a sib inp none pos) cur'
-    | (.fuel, cur') => (.fuel, .following a sib inp (some (node, q)) pos, cur')
-  -- precedingQuery, `p.iterator == nil`: `p.posit = 0; node := p.Input.Select(t); …`
+    match folCall d cfg a sib f (node, q) pos with
+    | .yield (j, k', pos') => (.yield j, .following a sib inp (some k') pos', cur)
+    | .done => PQ2.select d cfg dec f (.following a sib inp none pos) cur
+    | .fuel => (.fuel, .following a sib inp (some (node, q)) pos, cur)
+  -- precedingQuery, `p.iterator == nil`: `p.posit = 0; node := p.Input.Select(t); if node == nil { return nil };
+  -- node = node.Copy(); if p.Sibling { p.iterator = … } else { var q query; p.iterator = … }`
   | f+1, .preceding a sib inp none _, cur =>
     match PQ2.select d cfg dec f inp cur with
     | (.yield n, inp', cur') => PQ2.select d cfg dec f (.preceding a sib inp' (some (n, none)) 0) cur'
     | (.done, inp', cur') => (.done, .preceding a sib inp' none 0, cur')
     | (.fuel, inp', cur') => (.fuel, .preceding a sib inp' none 0, cur')
-  -- precedingQuery, iterator present
+  -- precedingQuery, iterator present: `if node := p.iterator(); node != nil { return node }; p.iterator = nil`
   | f+1, .preceding a sib inp (some (node, q)) pos, cur =>
-    match precCall d cfg a sib f (node, q) pos cur with
-    | (.yield (j, k', pos'), cur') => (.yield j, .preceding a sib inp (some k') pos', cur')
-    | (.done, cur') => PQ2.select d cfg dec f (.preceding a sib inp none pos) cur'
-    | (.fuel, cur') => (.fuel, .preceding a sib inp (some (node, q)) pos, cur')
+    match precCall d cfg a sib f (node, q) pos with
+    | .yield (j, k', pos') => (.yield j, .preceding a sib inp (some k') pos', cur)
+    | .done => PQ2.select d cfg dec f (.preceding a sib inp none pos) cur
+    | .fuel => (.fuel, .preceding a sib inp (some (node, q)) pos, cur)
   -- filterQuery (after `if f.positmap == nil { f.positmap = make(map[int]int) }`):
+  -- `ctx := t.Current().Copy(); defer func() { t.Current().MoveTo(ctx) }()`
   -- `for { node := f.Input.Select(t); if node == nil { return nil }; node = node.Copy(); t.Current().MoveTo(node);
-  --   if f.do(t) { level := getNodeDepth(f.Input); f.positmap[level]++; f.posit = f.positmap[level]; return node } }`
+  --   if f.do(t) { level := getNodeDepth(f.Input); f.positmap[level]++; f.posit = f.positmap[level]; return node } }`.
+  -- `ctx` is `cur`; every way out of the function passes the deferred `MoveTo(ctx)`, so every outcome carries `cur`.
+  -- A rejected candidate `n`: the next round of the `for` calls `f.Input.Select(t)` with `t.Current()` on `n`; that
+  -- is the recursive call (whose own restoring of `n` is overridden by the `defer` of this call).
   | f+1, .filter inp pred pos pm, cur =>
     match PQ2.select d cfg dec f inp cur with
     | (.yield n, inp', _) =>
       if dec pred n then
         (.yield n, .filter inp' pred (((pm.getD []).lookup inp'.depth).getD 0 + 1)
-          (some (bumpMap (pm.getD []) inp'.depth)), n)
-      else PQ2.select d cfg dec f (.filter inp' pred pos (some (pm.getD []))) n
-    | (.done, inp', cur') => (.done, .filter inp' pred pos (some (pm.getD [])), cur')
-    | (.fuel, inp', cur') => (.fuel, .filter inp' pred pos (some (pm.getD [])), cur')
+          (some (bumpMap (pm.getD []) inp'.depth)), cur)
+      else
+        match PQ2.select d cfg dec f (.filter inp' pred pos (some (pm.getD []))) n with
+        | (out, q', _) => (out, q', cur)
+    | (.done, inp', _) => (.done, .filter inp' pred pos (some (pm.getD [])), cur)
+    | (.fuel, inp', _) => (.fuel, .filter inp' pred pos (some (pm.getD [])), cur)
   -- unionQuery, `u.iterator == nil`: `root := t.Current().Copy()`; drain `Left`; `t.Current().MoveTo(root)`;
-  -- drain `Right`; `var i int; u.iterator = …`; then `return u.iterator()`
+  -- drain `Right`; `var i int; u.iterator = …`; then `return u.iterator()`.  Nothing is restored after `Right`:
+  -- `t.Current()` stays where the last `u.Right.Select(t)` (the one that returned nil) left it.
   | f+1, .union l r none, cur =>
     match collectU (PQ2.select d cfg dec f) (identityHash d cfg) f l cur [] [] with
     | none => (.fuel, .union l r none, cur)
@@ -513,18 +541,39 @@ def PQ2.select (d : Doc) (cfg : ECfg) (dec : Plan → Ref → Bool) : Nat → PQ
       | (.done, (j, l)) => PQ2.select d cfg dec f (.descOverDesc a ms inp l pos j) cur
       | (.fuel, (j, l)) => (.fuel, .descOverDesc a ms inp l pos j, cur)
   -- mergeQuery, `m.iterator == nil`: `root := m.Input.Select(t); if root == nil { return nil }; m.Child.Evaluate(t);
-  --  root = root.Copy(); t.Current().MoveTo(root); var list …; for node := m.Child.Select(t); … ; i := 0; m.iterator = …`
+  --  root = root.Copy(); ctx := t.Current().Copy(); t.Current().MoveTo(root); var list []NodeNavigator;
+  --  for node := m.Child.Select(t); node != nil; node = m.Child.Select(t) { list = append(list, node.Copy()) };
+  --  t.Current().MoveTo(ctx); i := 0; m.iterator = …`.
+  -- `ctx` is what `m.Input.Select(t)` left in `t.Current()` (`cur'`); the child is drained with `t.Current()` on `root`,
+  -- wherever that loop leaves it, `MoveTo(ctx)` puts it back.  (Out of fuel inside the loop: still on `root`.)
   | f+1, .merge inp ch none, cur =>
     match PQ2.select d cfg dec f inp cur with
-    | (.yield root, inp', _) =>
+    | (.yield root, inp', cur') =>
       match collectM (PQ2.select d cfg dec f) f ch.evaluate root [] with
       | none => (.fuel, .merge inp' ch none, root)
-      | some (list, ch', cur2) => PQ2.select d cfg dec f (.merge inp' ch' (some list)) cur2
+      | some (list, ch', _) => PQ2.select d cfg dec f (.merge inp' ch' (some list)) cur'
     | (.done, inp', cur') => (.done, .merge inp' ch none, cur')
     | (.fuel, inp', cur') => (.fuel, .merge inp' ch none, cur')
   -- mergeQuery, `if node := m.iterator(); node != nil { return node }; m.iterator = nil`
   | f+1, .merge inp ch (some []), cur => PQ2.select d cfg dec f (.merge inp ch none) cur
   | _+1, .merge inp ch (some (x :: rest)), cur => (.yield x, .merge inp ch (some rest), cur)
+
+/-- the `filterQuery` arm, unfolded once (its `for` loop is a recursive call on another filter state,
+so unfolding by `simp only [PQ2.select]` would not stop) -/
+theorem PQ2.select_filter (d : Doc) (cfg : ECfg) (dec : Plan → Ref → Bool) (f : Nat) (inp : PQ2) (pred : Plan)
+    (pos : Nat) (pm : Option (List (Nat × Nat))) (cur : Ref) :
+    PQ2.select d cfg dec (f+1) (.filter inp pred pos pm) cur =
+      match PQ2.select d cfg dec f inp cur with
+      | (.yield n, inp', _) =>
+        if dec pred n then
+          (.yield n, .filter inp' pred (((pm.getD []).lookup inp'.depth).getD 0 + 1)
+            (some (bumpMap (pm.getD []) inp'.depth)), cur)
+        else
+          ((PQ2.select d cfg dec f (.filter inp' pred pos (some (pm.getD []))) n).1,
+            (PQ2.select d cfg dec f (.filter inp' pred pos (some (pm.getD []))) n).2.1, cur)
+      | (.done, inp', _) => (.done, .filter inp' pred pos (some (pm.getD [])), cur)
+      | (.fuel, inp', _) => (.fuel, .filter inp' pred pos (some (pm.getD [])), cur) := by
+  rw [PQ2.select]
 
 /-! ## `NodeIterator.MoveNext` and draining -/
 
